@@ -11,32 +11,47 @@ COQ_CHECK = ("Model.C15", "check")
 COQ_FALLBACK = None
 COQ_IMPORTS = ""
 SHARD = 12
-RULE = ("aa.Inversion(dataset, linear_obj_list, settings, preloads=Preloads(...)) against the same call without preloads. Datasets: "
-        "masks with 3-10 unmasked pixels of any shape in 4x4..6x6 frames, signed integer data, noise in {1/2,1,2,4}, signed integer "
-        "PSFs 1x1/1x3/3x1/3x3 (not normalised); 1-4 linear objects in every order mixing rectangular mappers (mesh 2x2..3x3, sub-size "
-        "1/2, Constant regularization of several coefficients or none) and function lists (1-2 columns, with / without "
-        "operated_mapping_matrix_override, with / without regularization); both formalisms (settings.use_w_tilde and the Preloads "
-        "use_w_tilde slot), both solvers, default and dyadic diagonal term. 'hist' cases: a random subset of the 11 consulted slots "
-        "filled from a separate fresh inversion, 1-4 successive inversions sharing the Preloads object, each reading a random "
-        "sequence of 16 attributes (curvature_matrix before and after curvature_reg_matrix included); outputs, oracle tables and the "
-        "final content of every slot go to Coq. 'subsets' cases (Python level): ALL subsets of the available slots x 2 inversions, "
-        "byte fingerprints of every preloaded array. 'noise' cases: a preloaded w_tilde whose noise_map_value differs. "
+RULE = ("aa.Inversion(dataset, linear_obj_list, settings, preloads=Preloads(...)) against the same call without preloads, and "
+        "Preloads.set_*(fit_0, fit_1) followed by such inversions. Datasets: masks with 3-10 unmasked pixels of any shape in 4x4..6x6 frames "
+        "(pixel scales isotropic or anisotropic, origin shifted or not), signed integer data x 2^a (a in {0,-30,20}), noise in {1/2,1,2,4} x 2^b "
+        "(b in {0,-3,5}), signed integer PSFs 1x1/1x3/3x1/3x3 (not normalised), arrays built directly or by Array2D arithmetic; 1-4 linear objects "
+        "in every order mixing rectangular mappers (mesh 2x2..3x3, sub-size 1/2, Constant regularization of several coefficients or none) and "
+        "function lists (1-2 columns x 2^g, g in {0,-27,10}, with / without operated_mapping_matrix_override, with / without regularization); both "
+        "formalisms (settings.use_w_tilde and the Preloads use_w_tilde slot), both solvers, default and dyadic diagonal term, "
+        "force_edge_pixels_to_zeros / positive_only_uses_p_initial, one settings object per inversion or ONE shared by all. "
+        "'hist' cases: a random subset of the 11 consulted slots filled from a separate fresh inversion (private copies, or the very arrays / "
+        "dicts of that inversion), 1-4 successive inversions sharing the Preloads object, each reading a random sequence of 16 attributes; "
+        "variants: 'twin' = a second dataset (other data, noise, PSF) on the SAME linear objects with inversions interleaved, with its own "
+        "Preloads object or the same one re-populated before every inversion; 'edits' = slots cleared / refilled between inversions. Outputs, "
+        "oracle tables and the final content of every slot go to Coq (one KHist case per segment); every inversion is also compared in Python "
+        "with a fresh inversion reading the same attributes, all caller inputs and the factories' default-argument objects are fingerprinted. "
+        "'sets' cases: two real inversions wrapped in MockFitImaging (fit_1 identical / other data / other noise / other function objects; "
+        "fit_0 optionally using preloads itself; attributes of fit_0's inversion read before and AFTER), a random order / subset / repetition "
+        "of the five set_* methods; the filled Preloads object, which calls raised, fit_0's reads and the fresh values of the filled slots go to "
+        "Coq (KSet), followed by a history that uses the Preloads object (KHist); directed sub-streams reproduce defects 1fc8a9b and f780999. "
+        "'subsets' cases (Python level): ALL subsets of the available slots x 2 inversions, byte fingerprints of every preloaded array. "
+        "'noise' cases: a preloaded w_tilde whose noise_map_value differs. Comparisons are relative to the scale of the expected value. "
         "Non-trivial = at least one slot filled and at least one mapper; distinct = distinct JSON input.")
 EXHAUSTIVE = {"quick": "per 'subsets' case: all subsets of the slots available for that object mix (up to 2^10), 2 inversions each",
               "thorough": "per 'subsets' case: all subsets of the slots available for that object mix (up to 2^10), 3 inversions each"}
 TRUSTED = ["hand-written Gallina model coq/Model/C15.v (slot look-ups, cache, references/aliases into the Preloads object, in-place "
-           "statements) tied to /repo by this correspondence run: the model is executed at Q with dense reference semantics of the "
-           "numeric kernels (C = convolver applied to the identity, W = P + P^T expanded from the w-tilde triple); the comparison is "
-           "evaluated inside Coq by vm_compute",
+           "statements, the five Preloads.set_* methods) tied to /repo by this correspondence run: the model is executed at Q with dense "
+           "reference semantics of the numeric kernels (C = convolver applied to the identity, W = P + P^T expanded from the w-tilde triple); "
+           "the comparison is evaluated inside Coq by vm_compute",
+           "coq/Model/C15k.v: the kernel record instantiated with the C04/C03 models (theorems 9-12 are about those; their tie to /repo is "
+           "C04's and C03's own correspondence run)",
            "oracle tables (execution device only): reconstruction, log det of the curvature-reg matrix and of the regularization matrix "
            "are looked up by their computed arguments in tables recorded from a separate inversion without preloads",
            "Python reference semantics (attribute = reference; numpy slice assignment and += write the referenced array)",
-           "doubles: inputs are small integers / dyadic rationals, so data vector and curvature matrix are exact; quantities involving "
-           "1e-8 / 1e-3 constants or a linear solve are compared with relative tolerance 1e-9"]
-ASSUMPTIONS = ["slot values are those a fresh inversion of the same class computes from the identical dataset and objects",
+           "doubles: inputs are small integers / dyadic rationals (scaled by powers of two), so operated matrices, data vector and curvature "
+           "matrix are exact and compared entry-wise relative (1e-9); solved vectors relative to their largest entry, the regularization term "
+           "relative to its rounding scale, log-determinants with 1 + |x|; the set_* decisions max|a-b| < 1e-8 see differences 0, 2^-30 or >= 2^-20"]
+ASSUMPTIONS = ["slot values are those a fresh inversion computes from the identical dataset and objects (hand-filled), or whatever "
+               "Preloads.set_* store from two fits (production path)",
                "imaging inversions only (the interferometer classes consult the same AbstractInversion slots; not exercised)",
-               "kernel identities F_wtilde = F_mapping etc. are C04's; here they are hypotheses of the cross-formalism theorem and "
-               "checked numerically"]
+               "theorems 9-12: rectangular mask, Convolver.__init__ succeeded, strictly positive noise, each mapper's unique-mapping encoding "
+               "stands for its mapping matrix (C07), the solver returns one value per parameter, the w_tilde objects hold the preload of this "
+               "noise map and PSF"]
 
 SLOTS = ["w_tilde", "operated_mapping_matrix", "linear_func_operated_mapping_matrix_dict", "data_linear_func_matrix_dict",
          "mapper_operated_mapping_matrix_dict", "curvature_matrix", "data_vector_mapper", "curvature_matrix_mapper_diag",
@@ -75,6 +90,81 @@ def gen_base(rng, mix=None):
     return {"mask": mask, "data": data, "noise": noise, "psf": rng.choice(PSFS), "objs": objs,
             "use_w_tilde": rng.random() < 0.7, "pos": rng.random() < 0.4, "eps": rng.choice([None, "1/1024", "1/4"])}
 
+SCALES = [[-30, 0, 0], [20, 0, 0], [0, -27, 0], [0, 10, 0], [0, 0, -3], [0, 0, 5], [-30, -27, 0], [20, 10, -3], [-30, 0, 5]]
+def gen_env(rng, b, plain=0.5):
+    """value ranges / geometry / configuration / object-sharing variants (all defaults = the phase-1 stream)"""
+    if rng.random() < plain: return b
+    if rng.random() < 0.6: b["sc"] = rng.choice(SCALES)              # data x 2^a, function columns x 2^g, noise x 2^b
+    if rng.random() < 0.4:
+        b["px"] = rng.choice([["1", "1/2"], ["1/2", "2"], ["1/4", "1/4"]]); b["origin"] = rng.choice([["0", "0"], ["1/2", "-1"], ["-3", "2"]])
+    if rng.random() < 0.3: b["derived"] = True                       # dataset arrays are results of arithmetic
+    if rng.random() < 0.6: b["share"] = True                         # ONE settings object for every inversion of the case
+    if rng.random() < 0.3: b["st"] = {"edge0": rng.random() < 0.5, "pinit": rng.choice([None, True, False])}
+    if rng.random() < 0.35: b["alias"] = True                        # slots hold the very arrays / dicts of the producing inversion
+    return b
+
+def gen_hist(rng):
+    hist = []
+    for _ in range(rng.randint(1, 4)):
+        if rng.random() < 0.5: qs = list(STD)
+        else:
+            qs = [rng.choice(list(ATTR)) for _ in range(rng.randint(1, 8))]
+        hist.append(qs)
+    if rng.random() < 0.5 and len(hist) > 1: hist[1] = list(hist[0])
+    return hist
+
+def gen_twin(rng, b):
+    """a second dataset on the same mask and the SAME linear objects: other data, noise and PSF"""
+    H, W = len(b["mask"]), len(b["mask"][0])
+    return {"data": [[rng.randint(-3, 6) for _ in range(W)] for _ in range(H)],
+            "noise": [[rng.choice(["1/2", "1", "2", "4"]) for _ in range(W)] for _ in range(H)],
+            "psf": rng.choice([q for q in PSFS if q != b["psf"]]),
+            "slots": [s for s in SLOTS if rng.random() < 0.5],
+            # ONE Preloads object for both datasets, re-populated (as Preloads.set_* does) before every inversion
+            "same_pre": rng.random() < 0.5}
+
+def gen_edits(rng, hist):
+    """the user re-populates the shared Preloads object between two inversions (as a later Preloads.set_* call does)"""
+    ed = [None]
+    for _ in hist[1:]:
+        ed.append({"clear": [s for s in SLOTS if rng.random() < 0.3], "fill": [s for s in SLOTS if rng.random() < 0.3]}
+                  if rng.random() < 0.7 else None)
+    return ed
+
+SETTERS = ["set_w_tilde_imaging", "set_operated_mapping_matrix_with_preloads", "set_linear_func_inversion_dicts",
+           "set_curvature_matrix", "set_regularization_matrix_and_term"]
+def gen_sets(rng, n):
+    for i in range(n):
+        b = gen_base(rng, ["m", "mf", "m", "mfm", "fm", "mm", "mff", "f"][i % 8])
+        if i % 8 in (0, 2): b["objs"][0]["coef"] = rng.choice(["1", "2", "1/2"])      # exactly one regularization
+        b["op"] = "sets"
+        b["use_w_tilde"] = bool(i % 2) if i < 8 else b["use_w_tilde"]
+        b["pre_use_wt"] = rng.choice([None, None, None, False])          # Preloads(use_w_tilde=...) of fit_0 / fit_1 themselves
+        b["fit1"] = rng.choice(["same", "same", "same", "data", "noise", "func"])
+        b["fit1_seed"] = rng.randrange(10 ** 6)
+        b["chain"] = [s for s in SLOTS if rng.random() < 0.4] if rng.random() < 0.25 else []
+        b["reads0"] = rng.choice([[], [], ["QCurv"], ["QCrm"], list(STD), ["QDv", "QCurv"]])
+        b["reads0_after"] = rng.choice([["QCrm", "QCurv", "QRec"], list(STD), ["QCrm"], ["QRec", "QLdc", "QCurv"], []])
+        r = rng.random()
+        b["setters"] = (list(SETTERS) if r < 0.5 else rng.sample(SETTERS, rng.randint(1, 5)))
+        if r > 0.8: b["setters"] = b["setters"] + [rng.choice(SETTERS)]                # a setter called twice
+        b["hist"] = gen_hist(rng)
+        if i in (0, 2) or (i % 8 in (0, 2) and rng.random() < 0.5):
+            # directed (defect 1fc8a9b): one regularization, the curvature matrix preloaded by set_curvature_matrix while it is
+            # still in fit_0.inversion's cache, then fit_0.inversion.curvature_reg_matrix evaluated for the first time
+            b["fit1"] = rng.choice(["same", "data"]); b["setters"] = list(SETTERS); b["chain"] = []
+            b["reads0"] = rng.choice([[], ["QCurv"], ["QDv", "QCurv"]]); b["reads0_after"] = rng.choice([["QCrm", "QCurv", "QRec"], list(STD)])
+        if i % 8 in (1, 4, 6) and i >= 8 and rng.random() < 0.7 or i in (1, 4):
+            # directed (defect f780999): the fits of the preload set-up use the MAPPING formalism (Preloads(use_w_tilde=False)), their
+            # function objects differ, so set_curvature_matrix stores the mapping class's mapper-diag blocks, which the W-TILDE
+            # inversions built afterwards consume; unregularized function lists before / after the mapper
+            b["use_w_tilde"] = True; b["pre_use_wt"] = False; b["fit1"] = "func"; b["setters"] = list(SETTERS); b["chain"] = []
+            for o in b["objs"]:
+                if o["k"] == "f": o["coef"] = None
+            b["eps"] = rng.choice([None, "1/4", "1/1024"])
+        gen_env(rng, b, plain=0.6); b.pop("alias", None)
+        yield b
+
 def gen_inputs(tier, rng):
     big = tier == "thorough"
     # the defect witness of fixes/C15_mapping_data_vector_mapper.md stays in the stream
@@ -83,35 +173,62 @@ def gen_inputs(tier, rng):
            "objs": [{"k": "m", "shape": [2, 2], "sub": 1, "coef": "1"}, {"k": "f", "p": 1, "seed": 1, "ovr": False, "coef": None}],
            "use_w_tilde": False, "pos": False, "eps": None, "slots": ["data_vector_mapper"], "pre_use_wt": None,
            "hist": [["QDv", "QRec"], ["QDv", "QRec"]]}
-    for i in range(420 if big else 64):
+    for i in range(420 if big else 40):
         b = gen_base(rng, MIXES[i % len(MIXES)] if i < 2 * len(MIXES) else None)
         b["op"] = "hist"
         r = rng.random()
         b["slots"] = ([s for s in SLOTS if rng.random() < 0.5] if r < 0.6 else
                       [rng.choice(SLOTS)] if r < 0.8 else list(SLOTS) if r < 0.9 else [])
         b["pre_use_wt"] = rng.choice([None, None, True, False])
-        hist = []
-        for _ in range(rng.randint(1, 4)):
-            if rng.random() < 0.5: qs = list(STD)
-            else:
-                qs = [rng.choice(list(ATTR)) for _ in range(rng.randint(1, 8))]
-            hist.append(qs)
-        if rng.random() < 0.5 and len(hist) > 1: hist[1] = list(hist[0])
-        b["hist"] = hist
+        b["hist"] = gen_hist(rng)
+        gen_env(rng, b)
         yield b
     # directed: ONE regularized linear object (the only configuration in which curvature_reg_matrix adds the
     # regularization matrix IN PLACE into the array curvature_matrix returned) with the curvature matrix preloaded
-    for i in range(40 if big else 8):
+    for i in range(40 if big else 6):
         b = gen_base(rng, "m")
         b["objs"][0]["coef"] = rng.choice(["1", "2", "1/2"])
         b["op"] = "hist"; b["use_w_tilde"] = bool(i % 2); b["pre_use_wt"] = None
         b["slots"] = ["curvature_matrix"] + [s for s in SLOTS if s != "curvature_matrix" and rng.random() < 0.3]
         b["hist"] = [list(STD), list(STD)] if i % 4 < 2 else [["QCrm", "QCurv", "QRec"], ["QCrm"], ["QCurv", "QCrm", "QLdc"]]
+        gen_env(rng, b, plain=0.3)
         yield b
+    # directed: the formalism chosen by the factory differs between the inversion with preloads (Preloads(use_w_tilde=False): mapping
+    # class) and the one without (w-tilde class), with function columns / data of tiny or huge magnitude next to ordinary mappers
+    for i in range(24 if big else 3):
+        b = gen_base(rng, ["mff", "fm", "mf", "fmf", "mfm"][i % 5])
+        b["op"] = "hist"; b["use_w_tilde"] = True; b["pre_use_wt"] = False
+        b["slots"] = [s for s in SLOTS if rng.random() < 0.3]
+        b["hist"] = [list(STD)] if i % 2 == 0 else gen_hist(rng)
+        b["sc"] = [[-30, -27, 0], [0, -27, 0], [20, 10, -3], [0, -27, 5]][i % 4]
+        yield b
+    # twins: two datasets sharing the mask, the linear OBJECTS (and possibly the settings object), inversions interleaved
+    for i in range(40 if big else 4):
+        b = gen_base(rng, ["mf", "m", "mm", "fm", "mfm", "mff"][i % 6])
+        b["op"] = "hist"; b["pre_use_wt"] = rng.choice([None, None, True, False])
+        b["slots"] = [s for s in SLOTS if rng.random() < 0.6]
+        b["hist"] = gen_hist(rng)
+        if len(b["hist"]) < 2: b["hist"].append(list(STD))
+        b["twin"] = gen_twin(rng, b); b["share"] = i % 3 != 2
+        gen_env(rng, b, plain=0.6)
+        yield b
+    # edits: slots of the shared Preloads object are cleared / (re)filled between the inversions of the history
+    for i in range(40 if big else 4):
+        b = gen_base(rng, ["mf", "m", "mfm", "fm", "mm", "fmf"][i % 6])
+        b["op"] = "hist"; b["pre_use_wt"] = rng.choice([None, None, True, False])
+        b["slots"] = [s for s in SLOTS if rng.random() < 0.5]
+        b["hist"] = gen_hist(rng)
+        while len(b["hist"]) < 3: b["hist"].append(rng.choice([list(STD), ["QCrm", "QCurv", "QRec", "QDv"]]))
+        b["edits"] = gen_edits(rng, b["hist"])
+        gen_env(rng, b, plain=0.6)
+        yield b
+    # Preloads.set_*(fit_0, fit_1): the production path that fills the slots (with the producing inversion's own arrays)
+    yield from gen_sets(rng, 60 if big else 10)
     for i in range(28 if big else 5):
         b = gen_base(rng, ["mfmf", "mf", "mm", "fm", "m", "mff", "fmf"][i % 7])
         b["op"] = "subsets"; b["k"] = 3 if big else 2
         b["use_w_tilde"] = bool(i % 2 == 0) if i < 4 else b["use_w_tilde"]
+        if i % 2: b["sc"] = SCALES[(i // 2) % len(SCALES)]
         yield b
     for i in range(40 if big else 6):
         b = gen_base(rng, ["m", "mf", "f", "mm"][i % 4])
@@ -119,16 +236,32 @@ def gen_inputs(tier, rng):
         yield b
 
 # ----------------------------------------------------------------------------------------------- building the objects
+def F(x): return Fraction(x)
+def build_ds(aa, inp, m, data, noise, psf):
+    a, g, b = inp.get("sc", [0, 0, 0])
+    ps = tuple(float(F(v)) for v in inp.get("px", ["1", "1"]))
+    d = np.array(data, dtype=float) * 2.0 ** a
+    n = np.array([[float(F(v)) for v in r] for r in noise]) * 2.0 ** b
+    if inp.get("derived"):
+        # DERIVED structures: results of arithmetic on Array2D objects (the values are the same dyadic numbers)
+        half = np.floor(d / 2.0 ** a / 2.0) * 2.0 ** a
+        da = aa.Array2D.no_mask(values=half, pixel_scales=ps) + aa.Array2D.no_mask(values=d - half, pixel_scales=ps)
+        na = aa.Array2D.no_mask(values=n * 4.0, pixel_scales=ps) / 4.0
+    else:
+        da = aa.Array2D.no_mask(values=d, pixel_scales=ps); na = aa.Array2D.no_mask(values=n, pixel_scales=ps)
+    return aa.Imaging(data=da, noise_map=na,
+                      psf=aa.Kernel2D.no_mask(values=np.array(psf, dtype=float), pixel_scales=ps, normalize=False),
+                      use_normalized_psf=False).apply_mask(mask=m)
+
 def build(inp):
     aa = import_aa()
-    m = aa.Mask2D(mask=np.array(inp["mask"], dtype=bool), pixel_scales=1.0)
-    noise = np.array([[float(Fraction(v)) for v in r] for r in inp["noise"]])
-    ds = aa.Imaging(data=aa.Array2D.no_mask(values=np.array(inp["data"], dtype=float), pixel_scales=1.0),
-                    noise_map=aa.Array2D.no_mask(values=noise, pixel_scales=1.0),
-                    psf=aa.Kernel2D.no_mask(values=np.array(inp["psf"], dtype=float), pixel_scales=1.0, normalize=False),
-                    use_normalized_psf=False).apply_mask(mask=m)
+    ps = tuple(float(F(v)) for v in inp.get("px", ["1", "1"]))
+    org = tuple(float(F(v)) for v in inp.get("origin", ["0", "0"]))
+    m = aa.Mask2D(mask=np.array(inp["mask"], dtype=bool), pixel_scales=ps, origin=org)
+    ds = build_ds(aa, inp, m, inp["data"], inp["noise"], inp["psf"])
     npix = int(np.sum(~np.array(inp["mask"], dtype=bool)))
     grid_f = aa.Grid2D.from_mask(mask=m)
+    g = inp.get("sc", [0, 0, 0])[1]
     objs = []
     for o in inp["objs"]:
         reg = None if o["coef"] is None else aa.reg.Constant(coefficient=float(Fraction(o["coef"])))
@@ -140,14 +273,24 @@ def build(inp):
             objs.append(aa.MapperRectangular(mapper_grids=mg, over_sampler=os_, border_relocator=None, regularization=reg))
         else:
             r = np.random.RandomState(o["seed"])
-            mm = r.randint(-2, 4, size=(npix, o["p"])).astype(float)
-            ovr = r.randint(-2, 4, size=(npix, o["p"])).astype(float) if o["ovr"] else None
+            mm = r.randint(-2, 4, size=(npix, o["p"])).astype(float) * 2.0 ** g
+            ovr = r.randint(-2, 4, size=(npix, o["p"])).astype(float) * 2.0 ** g if o["ovr"] else None
             objs.append(aa.m.MockLinearObjFuncList(parameters=o["p"], grid=grid_f, mapping_matrix=mm, regularization=reg,
                                                    operated_mapping_matrix_override=ovr))
     eps = None if inp["eps"] is None else float(Fraction(inp["eps"]))
-    def settings():
+    st = inp.get("st") or {}
+    def mk():
         return aa.SettingsInversion(use_w_tilde=inp["use_w_tilde"], use_positive_only_solver=inp["pos"],
-                                    no_regularization_add_to_curvature_diag_value=eps)
+                                    no_regularization_add_to_curvature_diag_value=eps,
+                                    force_edge_pixels_to_zeros=not st.get("edge0", False),
+                                    positive_only_uses_p_initial=st.get("pinit"))
+    if inp.get("share"):
+        shared = mk()
+        settings = lambda: shared          # ONE settings object for every inversion of the case
+    else:
+        settings = mk
+    settings.mk = mk
+    settings.mask = m
     return aa, ds, objs, settings
 
 def new_w_tilde(aa, ds, noise_value=None):
@@ -167,9 +310,12 @@ def wt_chosen(inp, pre_use_wt):
     else: u = inp["use_w_tilde"]
     return u and inp["use_w_tilde"]
 
-def slot_values(aa, ds, objs, settings, inp, pre_use_wt, names):
-    """values of the named slots computed by a separate fresh inversion of the class the factory will choose"""
+def slot_values(aa, ds, objs, settings, inp, pre_use_wt, names, alias=False):
+    """values of the named slots computed by a separate fresh inversion of the class the factory will choose.
+    alias=False: private copies.  alias=True: the very arrays / dictionaries held by the producing inversion (what the
+    Preloads.set_* methods store), after that inversion has evaluated all its attributes; returns the inversion too."""
     inv0 = aa.Inversion(dataset=ds, linear_obj_list=objs, settings=settings(), preloads=aa.Preloads(use_w_tilde=pre_use_wt))
+    if alias: [observe(inv0, q) for q in STD]
     has_f = any(o["k"] == "f" for o in inp["objs"]); has_m = any(o["k"] == "m" for o in inp["objs"])
     wt = wt_chosen(inp, pre_use_wt)
     total = sum(o.params for o in objs)
@@ -185,18 +331,45 @@ def slot_values(aa, ds, objs, settings, inp, pre_use_wt, names):
             v = inv0._curvature_matrix_mapper_diag if wt else np.full((total, total), 7.0)
         elif s in ("linear_func_operated_mapping_matrix_dict", "data_linear_func_matrix_dict"):
             if not has_f: continue
-            v = dict(getattr(inv0, s))
+            v = getattr(inv0, s) if alias else dict(getattr(inv0, s))
         elif s == "mapper_operated_mapping_matrix_dict":
             if not has_m: continue
-            v = dict(getattr(inv0, s))
+            v = getattr(inv0, s) if alias else dict(getattr(inv0, s))
         elif s == "log_det_regularization_matrix_term":
             r = call_res(lambda: inv0.log_det_regularization_matrix_term)
             if r[0] != "ok": continue
             v = float(r[1])
         else:
-            v = np.array(getattr(inv0, s), dtype=float)
+            v = getattr(inv0, s) if alias else np.array(getattr(inv0, s), dtype=float)
         out[s] = v
-    return out
+    return (out, inv0) if alias else out
+
+def input_fingerprints(ds, objs, st):
+    """(d) everything the caller hands to aa.Inversion: dataset arrays, the linear objects' matrices, the settings object"""
+    fp = [("data", fingerprint(np.asarray(ds.data))), ("noise_map", fingerprint(np.asarray(ds.noise_map))),
+          ("psf", fingerprint(np.asarray(ds.psf.native))), ("mask", fingerprint(np.asarray(ds.mask)))]
+    for i, o in enumerate(objs):
+        fp.append((f"obj{i}.mapping_matrix", fingerprint(np.asarray(o.mapping_matrix))))
+        if o.operated_mapping_matrix_override is not None:
+            fp.append((f"obj{i}.override", fingerprint(np.asarray(o.operated_mapping_matrix_override))))
+    fp.append(("settings", repr(sorted((k, repr(v)) for k, v in vars(st).items()))))
+    return fp
+
+def defaults_pristine(aa):
+    """the shared default-argument objects of the factories (settings=SettingsInversion(), preloads=Preloads())"""
+    from autoarray.inversion.inversion import factory
+    ref_s = repr(sorted((k, repr(v)) for k, v in vars(aa.SettingsInversion()).items()))
+    for f in (factory.inversion_from, factory.inversion_imaging_from):
+        for dflt in f.__defaults__ or ():
+            if isinstance(dflt, aa.Preloads) and any(v is not None for v in vars(dflt).values()): return f"default Preloads() of {f.__name__} was written to"
+            if isinstance(dflt, aa.SettingsInversion) and repr(sorted((k, repr(v)) for k, v in vars(dflt).items())) != ref_s:
+                return f"default SettingsInversion() of {f.__name__} was modified"
+    return ""
+
+def private(aa, ds, s, v):
+    """a private copy of a slot value"""
+    return ({k: np.array(a).copy() for k, a in v.items()} if isinstance(v, dict) else
+            new_w_tilde(aa, ds) if s == "w_tilde" else v if isinstance(v, float) else np.array(v).copy())
 
 def arrays_of(v):
     if isinstance(v, dict): return list(v.values())
@@ -236,17 +409,22 @@ def jval(o):
     if k == "L": return [k, [x.tolist() for x in v]]
     return [k, v.tolist()]
 
-def same(a, b, tol=1e-9):
+def same(a, b, tol=1e-9, tol_solved=1e-7):
+    """implementation output against implementation output, relative to the size of the expected value: exact kinds
+    entry by entry, solved vectors against their largest entry, scalars against themselves (mirrors Model.C15.pval_same)"""
     (ka, va), (kb, vb) = a, b
     if ka != kb: return False
     if ka in ("RV", "RT"):
         if va[0] != vb[0]: return False
         if va[0] != "ok": return va[1] == vb[1]
-        va, vb = va[1], vb[1]
+        va, vb = np.asarray(va[1], dtype=float), np.asarray(vb[1], dtype=float)
+        if va.shape != vb.shape: return False
+        if ka == "RT": return bool(np.abs(va - vb) <= tol_solved * np.abs(vb))
+        return bool(np.all(np.abs(va - vb) <= tol_solved * (np.max(np.abs(vb)) if vb.size else 0.0)))
     if ka == "L":
         return len(va) == len(vb) and all(same(("M", x), ("M", y)) for x, y in zip(va, vb))
     va, vb = np.asarray(va, dtype=float), np.asarray(vb, dtype=float)
-    return va.shape == vb.shape and bool(np.all(np.abs(va - vb) <= tol * (1 + np.abs(vb))))
+    return va.shape == vb.shape and bool(np.all(np.abs(va - vb) <= tol * np.abs(vb)))
 
 def dense_w(w, npix):
     W = np.zeros((npix, npix)); k = 0
@@ -286,11 +464,11 @@ def cinput(aa, ds, objs, settings, inp, npix):
             f"in_objs := {clist(los)}; in_use_wt := {cbool(inp['use_w_tilde'])}; "
             f"in_eps := {cq(frac(st.no_regularization_add_to_curvature_diag_value))} |}}")
 
-def oracle(aa, ds, objs, settings, pre_use_wt):
+def oracle_parts(aa, ds, objs, settings, pre_use_wt):
     inv = aa.Inversion(dataset=ds, linear_obj_list=objs, settings=settings(), preloads=aa.Preloads(use_w_tilde=pre_use_wt))
     crm = np.array(inv.curvature_reg_matrix, dtype=float).copy(); dv = np.array(inv.data_vector, dtype=float).copy()
     rec = call_res(lambda: np.array(inv.reconstruction, dtype=float))
-    solve = f"(({qm(crm)}, {qv(dv)}), {cresq(rec, qv)})"
+    solve = [f"(({qm(crm)}, {qv(dv)}), {cresq(rec, qv)})"]
     ldc, ldr = [], []
     from autoarray.inversion.regularization.abstract import AbstractRegularization
     if inv.has(cls=AbstractRegularization):
@@ -300,40 +478,211 @@ def oracle(aa, ds, objs, settings, pre_use_wt):
         rr = np.array(inv.regularization_matrix_reduced, dtype=float)
         r = call_res(lambda: float(inv.log_det_regularization_matrix_term))
         ldr.append(f"({qm(rr)}, {cresq(r, lambda x: cq(frac(x)))})")
-    return f"{{| or_solve := [{solve}]; or_ldc := {clist(ldc)}; or_ldr := {clist(ldr)} |}}"
+    return solve, ldc, ldr
+def oracle_str(*parts):
+    return (f"{{| or_solve := {clist([x for p in parts for x in p[0]])}; or_ldc := {clist([x for p in parts for x in p[1]])}; "
+            f"or_ldr := {clist([x for p in parts for x in p[2]])} |}}")
+def oracle(aa, ds, objs, settings, pre_use_wt): return oracle_str(oracle_parts(aa, ds, objs, settings, pre_use_wt))
 
 # ----------------------------------------------------------------------------------------------- cases
+class Track:
+    """one dataset + the (shared) linear objects + its own Preloads object"""
+    def __init__(self, aa, ds, objs, settings, inp, slots, pre_use_wt, alias):
+        self.aa, self.ds, self.objs, self.settings, self.inp, self.pre_use_wt = aa, ds, objs, settings, inp, pre_use_wt
+        self.npix = ds.data.shape[0]
+        self.wt = wt_chosen(inp, pre_use_wt)
+        self.has_f = any(o["k"] == "f" for o in inp["objs"])
+        self.inv0 = self.obs0 = None
+        if alias:
+            self.vals, self.inv0 = slot_values(aa, ds, objs, settings, inp, pre_use_wt, slots, alias=True)
+            self.obs0 = [observe(self.inv0, q) for q in STD]
+        else:
+            self.vals = slot_values(aa, ds, objs, settings, inp, pre_use_wt, slots)
+        self.pre = aa.Preloads(use_w_tilde=pre_use_wt, **self.vals)
+        self.C = ds.convolver.convolve_mapping_matrix(mapping_matrix=np.eye(self.npix))
+        self.oracle = oracle(aa, ds, objs, settings.mk, pre_use_wt)
+        self.cin = cinput(aa, ds, objs, settings, inp, self.npix)
+        self.fp_in = input_fingerprints(ds, objs, settings())
+        self.fresh = {}
+        self.segs = []; self.open_segment()
+        self.why = ""
+    def open_segment(self):
+        self.segs_open = True
+        self.seg = {"pre": cstore(self.pre, self.npix), "h": [], "outs": [],
+                    "before": {s: (v, fingerprint(v)) for s, v in vars(self.pre).items() if s in SLOTS and v is not None}}
+    def fresh_of(self, qs):
+        k = tuple(qs)
+        if k not in self.fresh:
+            inv = self.aa.Inversion(dataset=self.ds, linear_obj_list=self.objs, settings=self.settings())
+            self.fresh[k] = [observe(inv, q) for q in qs]
+        return self.fresh[k]
+    def step(self, qs):
+        inv = self.aa.Inversion(dataset=self.ds, linear_obj_list=self.objs, settings=self.settings(), preloads=self.pre)
+        o = [observe(inv, q) for q in qs]
+        self.seg["h"].append(qs); self.seg["outs"].append(o)
+        bad = [q for q, a, b in zip(qs, o, self.fresh_of(qs)) if not same(a, b)]
+        if bad and not self.why: self.why = f"outputs differ from the inversion without preloads: {bad}"
+    def close_segment(self):
+        if not self.segs_open: return
+        self.segs_open = False
+        # the only array an inversion may write in place: data_vector_mapper, by the w-tilde class with a function object
+        allowed = {"data_vector_mapper"} if (self.wt and self.has_f) else set()
+        for s, (v, fp) in self.seg["before"].items():
+            if fingerprint(v) != fp and s not in allowed and not self.why: self.why = f"preloaded {s} was modified in place"
+        sg = self.seg
+        if sg["h"]:
+            self.segs.append(f"(KHist {qm(self.C)} {self.oracle} {self.cin} {sg['pre']} {clist([clist(qs) for qs in sg['h']])} "
+                             f"{couts(self.fresh_of(sg['h'][0]))} {clist([couts(o) for o in sg['outs']])} {cstore(self.pre, self.npix)})")
+    def finish(self):
+        self.close_segment()
+        if self.fp_in != input_fingerprints(self.ds, self.objs, self.settings()) and not self.why:
+            now = dict(input_fingerprints(self.ds, self.objs, self.settings()))
+            self.why = "the caller's inputs were modified: " + ", ".join(k for k, v in self.fp_in if now.get(k) != v)
+        if self.inv0 is not None:
+            again = [observe(self.inv0, q) for q in STD]
+            bad = [q for q, a, b in zip(STD, again, self.obs0) if not same(a, b)]
+            if bad and not self.why: self.why = f"attributes of the inversion that produced the preloads changed: {bad}"
+
 def run_hist(inp):
     aa, ds, objs, settings = build(inp)
-    npix = ds.data.shape[0]
+    alias = bool(inp.get("alias"))
+    tracks = [Track(aa, ds, objs, settings, inp, inp["slots"], inp.get("pre_use_wt"), alias)]
+    tw = inp.get("twin")
+    if tw:
+        dsB = build_ds(aa, inp, settings.mask, tw["data"], tw["noise"], tw["psf"])
+        tracks.append(Track(aa, dsB, objs, settings, inp, tw["slots"], inp.get("pre_use_wt"), alias))
+    hist, edits = inp["hist"], inp.get("edits") or []
+    pristine = None
+    same_pre = bool(tw and tw.get("same_pre"))
+    if same_pre:
+        for t in tracks: t.cur = {s: getattr(t.pre, s) for s in SLOTS}
+        tracks[1].pre = tracks[0].pre
+    for i, qs in enumerate(hist):
+        for t in tracks:
+            if same_pre:
+                t.close_segment()
+                for s in SLOTS: setattr(t.pre, s, t.cur[s])
+                t.open_segment()
+            ed = edits[i] if (t is tracks[0] and i < len(edits)) else None
+            if ed:
+                t.close_segment()
+                if pristine is None: pristine = slot_values(aa, ds, objs, settings, inp, inp.get("pre_use_wt"), SLOTS)
+                for s in ed["clear"]: setattr(t.pre, s, None)
+                for s in ed["fill"]:
+                    if s in pristine: setattr(t.pre, s, private(aa, ds, s, pristine[s]))
+                t.open_segment()
+            t.step(qs)
+            if same_pre: t.close_segment()
+    for t in tracks: t.finish()
+    why = next((t.why for t in tracks if t.why), "") or defaults_pristine(aa)
+    terms = [c for t in tracks for c in t.segs]
+    t0 = tracks[0]
+    nm = sum(1 for o in inp["objs"] if o["k"] == "m")
+    kind = (("wtilde" if t0.wt else "mapping") + ":" + "".join(o["k"] for o in inp["objs"]) + f":{len(t0.vals)}slots:{len(hist)}inv"
+            + (":twin" if tw else "") + ("-samepre" if same_pre else "") + (":edits" if any(edits) else "") + (":alias" if alias else "")
+            + (":scaled" if inp.get("sc") else "") + (":shared" if inp.get("share") else ""))
+    fr = t0.fresh_of(hist[0])
+    return {"coq": terms[0], "extra_coq": terms[1:], "out": {"fresh": [jval(x) for x in fr][:4], "why": why},
+            "py_ok": not why, "kind": kind, "nontrivial": bool(t0.vals) and nm > 0}
+
+def run_sets(inp):
+    aa, ds, objs, settings = build(inp)
     pre_use_wt = inp.get("pre_use_wt")
-    wt = wt_chosen(inp, pre_use_wt)
     has_f = any(o["k"] == "f" for o in inp["objs"]); nm = sum(1 for o in inp["objs"] if o["k"] == "m")
-    vals = slot_values(aa, ds, objs, settings, inp, pre_use_wt, inp["slots"])
-    pre = aa.Preloads(use_w_tilde=pre_use_wt, **vals)
-    pre_coq = cstore(pre, npix)
+    wt0 = wt_chosen(inp, pre_use_wt)
+    # fit_1: the same model instance, or one that differs in the data, in the noise map, or in the function objects
+    kind1 = inp["fit1"]; rs = np.random.RandomState(inp["fit1_seed"]); ds1, objs1 = ds, objs
+    if kind1 in ("data", "noise"):
+        H, W = len(inp["mask"]), len(inp["mask"][0])
+        data1 = [[int(v) for v in r] for r in rs.randint(-3, 7, size=(H, W))] if kind1 == "data" else inp["data"]
+        noise1 = [[["1/2", "1", "2", "4"][int(v)] for v in r] for r in rs.randint(0, 4, size=(H, W))] if kind1 == "noise" else inp["noise"]
+        ds1 = build_ds(aa, inp, settings.mask, data1, noise1, inp["psf"])
+    elif kind1 == "func" and has_f:
+        inp1 = dict(inp); inp1["objs"] = [dict(o, seed=o["seed"] + 1 + int(rs.randint(1000))) if o["k"] == "f" else o for o in inp["objs"]]
+        objs1 = [a if o["k"] == "m" else b for o, a, b in zip(inp["objs"], objs, build(inp1)[2])]
+    own0 = slot_values(aa, ds, objs, settings, inp, pre_use_wt, inp["chain"]) if inp["chain"] else {}
+    npix = ds.data.shape[0]
+    pre_own0 = aa.Preloads(use_w_tilde=pre_use_wt, **own0)
+    own0_coq = cstore(pre_own0, npix); own1_coq = cstore(aa.Preloads(use_w_tilde=pre_use_wt), npix)
+    inv0 = aa.Inversion(dataset=ds, linear_obj_list=objs, settings=settings(), preloads=pre_own0)
+    inv1 = aa.Inversion(dataset=ds1, linear_obj_list=objs1, settings=settings(), preloads=aa.Preloads(use_w_tilde=pre_use_wt))
     C = ds.convolver.convolve_mapping_matrix(mapping_matrix=np.eye(npix))
-    hist = inp["hist"]
-    fresh_inv = aa.Inversion(dataset=ds, linear_obj_list=objs, settings=settings())
-    fresh = [observe(fresh_inv, q) for q in hist[0]]
-    before = {s: fingerprint(v) for s, v in vals.items()}
-    outs, py_ok, why = [], True, ""
-    for qs in hist:
-        inv = aa.Inversion(dataset=ds, linear_obj_list=objs, settings=settings(), preloads=pre)
-        o = [observe(inv, q) for q in qs]
-        outs.append(o)
-        if qs == hist[0] and not all(same(a, b) for a, b in zip(o, fresh)):
-            py_ok = False; why = "outputs differ from the inversion without preloads"
-    # the only array an inversion may write in place: data_vector_mapper, by the w-tilde class with a function object
-    allowed = {"data_vector_mapper"} if (wt and has_f) else set()
-    for s, v in vals.items():
-        if fingerprint(v) != before[s] and s not in allowed:
-            py_ok = False; why = f"preloaded {s} was modified in place"
-    coq = (f"(KHist {qm(C)} {oracle(aa, ds, objs, settings, pre_use_wt)} {cinput(aa, ds, objs, settings, inp, npix)} {pre_coq} "
-           f"{clist([clist(qs) for qs in hist])} {couts(fresh)} {clist([couts(o) for o in outs])} {cstore(pre, npix)})")
-    kind = ("wtilde" if wt else "mapping") + ":" + "".join(o["k"] for o in inp["objs"]) + f":{len(vals)}slots:{len(hist)}inv"
-    return {"coq": coq, "out": {"fresh": [jval(x) for x in fresh][:4], "first": [jval(x) for x in outs[0]][:4], "why": why},
-            "py_ok": py_ok, "kind": kind, "nontrivial": bool(vals) and nm > 0}
+    orc = oracle_str(oracle_parts(aa, ds, objs, settings.mk, pre_use_wt), oracle_parts(aa, ds1, objs1, settings.mk, pre_use_wt))
+    cin0 = cinput(aa, ds, objs, settings, inp, npix); cin1 = cinput(aa, ds1, objs1, settings, inp, npix)
+    fit0 = aa.m.MockFitImaging(dataset=ds, inversion=inv0, noise_map=ds.noise_map)
+    fit1 = aa.m.MockFitImaging(dataset=ds1, inversion=inv1, noise_map=ds1.noise_map)
+    fp_in = input_fingerprints(ds, objs, settings())
+    why = ""
+    before0 = [observe(inv0, q) for q in inp["reads0"]]
+    pre = aa.Preloads()
+    raised = []; raised_idx = []
+    for i_, name in enumerate(inp["setters"]):
+        r = call_res(lambda: getattr(pre, name)(fit0, fit1))
+        if r[0] != "ok":
+            raised.append((name, r[1])); raised_idx.append((i_, r[1]))
+            if not why: why = f"{name} raised {r[1]}"
+    filled = {s: getattr(pre, s) for s in SLOTS if getattr(pre, s) is not None}
+    post_coq = cstore(pre, npix)
+    # the fresh-value premise: every filled slot holds what a fresh inversion of fit_0's class computes
+    ref = aa.Inversion(dataset=ds, linear_obj_list=objs, settings=settings(), preloads=aa.Preloads(use_w_tilde=pre_use_wt))
+    def val_of(s):
+        if s == "data_vector_mapper": return ("V", np.array(ref._data_vector_mapper, dtype=float))
+        if s == "curvature_matrix_mapper_diag": return ("M", np.array(ref._curvature_matrix_mapper_diag, dtype=float))
+        if s == "log_det_regularization_matrix_term": return ("RT", ("ok", np.array(ref.log_det_regularization_matrix_term, dtype=float)))
+        v = getattr(ref, s)
+        return ("L", [np.array(x, dtype=float) for x in v.values()]) if isinstance(v, dict) else ("M", np.array(v, dtype=float))
+    def as_val(s, v):
+        if s == "data_vector_mapper": return ("V", np.array(v, dtype=float))
+        if s == "log_det_regularization_matrix_term": return ("RT", ("ok", np.array(v, dtype=float)))
+        return ("L", [np.array(x, dtype=float) for x in v.values()]) if isinstance(v, dict) else ("M", np.array(v, dtype=float))
+    for s, v in filled.items():
+        if s == "w_tilde": continue
+        if s == "data_vector_mapper" and wt0 and has_f and inp["chain"]: continue      # may legitimately be the completed vector
+        if not same(as_val(s, v), val_of(s)) and not why: why = f"{s} stored by the set_* methods is not the fresh value"
+    fps = {s: fingerprint(v) for s, v in filled.items()}
+    # fit_0's inversion goes on being used AFTER the preloads were set
+    after0 = [observe(inv0, q) for q in inp["reads0_after"]]
+    fresh0 = aa.Inversion(dataset=ds, linear_obj_list=objs, settings=settings(), preloads=aa.Preloads(use_w_tilde=pre_use_wt))
+    fresh_after0 = [observe(fresh0, q) for q in inp["reads0_after"]]
+    bad = [q for q, a, b in zip(inp["reads0_after"], after0, fresh_after0) if not same(a, b)]
+    if bad and not why: why = f"fit_0.inversion attributes read after set_*: {bad} differ from a fresh inversion"
+    # (a data_vector_mapper that fit_0's inversion itself had been given as a preload is the same array: the w-tilde class with a
+    #  function object completes it in place, which leaves it a valid preload -- C15_store_stays_consistent)
+    allowed0 = {"data_vector_mapper"} if (wt0 and has_f and "data_vector_mapper" in inp["chain"]) else set()
+    for s, v in filled.items():
+        if fingerprint(v) != fps[s] and s not in allowed0 and not why: why = f"preloaded {s} changed when fit_0.inversion was read after set_*"
+    # the fresh values of the filled slots (specification side of the Coq case)
+    fr = {}
+    for s_ in filled:
+        if s_ == "w_tilde": fr[s_] = new_w_tilde(aa, ds)
+        elif s_ == "data_vector_mapper": fr[s_] = np.array(ref._data_vector_mapper, dtype=float)
+        elif s_ == "curvature_matrix_mapper_diag":
+            r = call_res(lambda: ref._curvature_matrix_mapper_diag)
+            if r[0] == "ok" and r[1] is not None: fr[s_] = np.array(r[1], dtype=float)
+        elif s_ == "log_det_regularization_matrix_term": fr[s_] = float(ref.log_det_regularization_matrix_term)
+        else:
+            v = getattr(ref, s_); fr[s_] = dict(v) if isinstance(v, dict) else np.array(v, dtype=float)
+    fresh_coq = cstore(aa.Preloads(**fr), npix)
+    dvm_loose = bool(wt0 and has_f and "data_vector_mapper" in inp["chain"])
+    CN = {"set_w_tilde_imaging": "SetWt", "set_operated_mapping_matrix_with_preloads": "SetOmm", "set_linear_func_inversion_dicts": "SetLf",
+          "set_curvature_matrix": "SetCurv", "set_regularization_matrix_and_term": "SetReg"}
+    rz = {i for i, _ in raised_idx}
+    coq = (f"(KSet {qm(C)} {orc} {cin0} {own0_coq} {clist(inp['reads0'])} {cin1} {own1_coq} "
+           f"{clist([CN[n_] for n_ in inp['setters']])} {clist([cbool(i in rz) for i in range(len(inp['setters']))])} {post_coq} {fresh_coq} "
+           f"{cbool(dvm_loose)} {clist(inp['reads0_after'])} {couts(after0)} {couts(fresh_after0)})")
+    # the history of inversions that use the Preloads object filled by set_*: an ordinary KHist case
+    wt_later = wt_chosen(inp, pre.use_w_tilde)
+    t = Track(aa, ds, objs, settings, inp, [], pre_use_wt, False)
+    t.pre = pre; t.wt = wt_later; t.open_segment()
+    for qs in inp["hist"]: t.step(qs)
+    t.close_segment()
+    if t.why and not why: why = "with the preloads set by set_*: " + t.why
+    if fp_in != input_fingerprints(ds, objs, settings()) and not why: why = "the caller's inputs were modified"
+    why = why or defaults_pristine(aa)
+    kind = ("sets:" + ("wtilde" if wt0 else "mapping") + ":" + "".join(o["k"] for o in inp["objs"]) + ":fit1=" + kind1
+            + (":chain" if inp["chain"] else "") + f":{len(filled)}filled")
+    return {"coq": coq, "extra_coq": t.segs, "py_ok": not why, "kind": kind, "nontrivial": nm > 0 and len(filled) > 1,
+            "out": {"filled": sorted(filled), "use_w_tilde": pre.use_w_tilde, "raised": raised, "why": why}}
 
 def run_subsets(inp):
     import copy
@@ -382,4 +731,5 @@ def run_noise(inp):
 def run_case(inp):
     if inp["op"] == "hist": return run_hist(inp)
     if inp["op"] == "subsets": return run_subsets(inp)
+    if inp["op"] == "sets": return run_sets(inp)
     return run_noise(inp)
